@@ -208,7 +208,8 @@ Record InvG (s : st) (g : ghost) : Prop := {
   i_ownt : forall t, fnode (mem s) t <> O -> nown g (fnode (mem s) t) = OThr t;
   i_held : forall t, held_ok s g t;
   i_pop : forall u, pop_ok s g u;
-  i_one : forall u v, is_popper (stk s u) -> is_popper (stk s v) -> u = v
+  i_one : forall u v, is_popper (stk s u) -> is_popper (stk s v) -> u = v;
+  i_headnz : forall sd, qhead (mem s) (qof sd) <> O
 }.
 
 Definition Inv (s : st) : Prop := exists g, InvG s g.
@@ -329,4 +330,5 @@ Proof.
   - intros t. exact I.
   - intros u. exact I.
   - intros u v [].
+  - intros sd; discriminate.
 Qed.
